@@ -19,6 +19,11 @@ tie:   fault-injection correspondence.  For each program of the family (3 modes 
        chosen moment - just before the victim's backend command number i (EVERY i of the trace) or after the victim's block
        has been left; the fault sets are enumerated for every such placement.  The lock keys are inspected after the
        victim's block is left AND every holder has finished AND any task still running has had its polling periods.
+       The WHOLE store entries are compared (model and oracle): value AND deadline of every key, the deadline measured on the
+       virtual clock (get_expire + moving the clock to the tick at which the key lapses); initial stores carry TTLs; bodies
+       contain the read-modify-write commands expire / incr with a ttl / set(exist=True|False), whose own backend read
+       (get / exists) is issued after the key's lock was taken and can fail; after a failed body no write command may have
+       reached a backend at all.
 """
 from __future__ import annotations
 
@@ -32,7 +37,7 @@ from ..vtime import REAL_PERF
 
 PROP = "C16"
 DRIVER = Driver("driver_c16", "Drivers/C16.lean")
-KEYS = ["exc", "ctx", "trace", "outs", "locks", "data", "probe"]
+KEYS = ["exc", "ctx", "trace", "outs", "locks", "data", "probe", "store"]
 
 TRUSTED = [
     "Lean 4.33.0 kernel; axioms of every theorem audited to be within {propext, Classical.choice, Quot.sound}",
@@ -56,6 +61,9 @@ TRUSTED = [
     "contending holders are real transaction blocks in other asyncio tasks on the same Cache, parked on an asyncio.Event; a holder "
     "is released while the victim's backend command i is suspended (before it takes effect) or after the victim's block; the model "
     "sees a holder only as a foreign lock entry and a release event `env i` (a holder's only effect on the stores is its lock)",
+    "deadlines of store entries are observed through the backend API on the virtual clock: get_expire (whole seconds) narrows the instant "
+    "down, then the clock is moved tick by tick (bisection) to the first tick at which get_expire reports the key gone, and put back; "
+    "only whole-tick deadlines occur (dyadic TTLs, no lock-steps in programs with TTLs)",
     "the 0.1 s lock-steps of the wait loop are symbolic in the correspondence (model run with stepDt = 0): the lease of a lock "
     "acquired after a lock-step is checked on the implementation (gone exactly timeout after its acquisition) but not compared",
 ]
@@ -77,6 +85,8 @@ def P(mode, nb, body, timeout=16, form="ctx", exc="interaction", data=(), flocks
 DATA1 = [(0, 1, 5, None), (0, 2, 7, 8)]
 DATA2 = [(0, 1, 5, None), (0, 2, 7, 8), (1, 1, 3, None)]
 DATA0 = [(0, 1, 5, None), (0, 2, 7, None)]
+DATA3 = [(0, 1, 5, 40), (0, 2, 7, None)]
+DATA4 = [(0, 1, 5, 40), (0, 2, 7, 6), (1, 1, 3, None), (1, 2, 2, 24)]
 
 
 def fixed_family():
@@ -132,6 +142,20 @@ def fixed_family():
         P("locked", 3, ["setmany.1.-.0:1+1:2", "set.0.0.1.-", "delmany.2.0+1", "raise"], exc="runtime", bexc="cancel"),
         P("fast", 3, ["set.0.0.1.-", "set.1.0.2.8", "del.2.1"], data=DATA2, bkind="base"),
     ]
+    # TTLs are data too: `expire` (on a stored key, on a key written / deleted earlier in the transaction, on a missing key),
+    # `incr` with a ttl, `set` with a ttl, conditional `set(exist=...)`; initial stores with deadlines.  A failed body must leave
+    # every ENTRY as it was (value and deadline); the read each of these commands issues comes after the lock was taken.
+    out += [
+        P("fast", 1, ["expire.0.1.8", "get.0.2"], data=DATA3),
+        P("locked", 1, ["expire.0.1.8", "set.0.0.1.-"], data=DATA3),
+        P("serializable", 2, ["expire.0.2.16", "expire.1.1.4", "incr.1.0.8", "raise"], data=DATA4, form="decor", exc="runtime"),
+        P("locked", 2, ["expire.0.1.0", "set.0.0.1.8", "expire.0.0.4", "expire.0.3.4", "del.0.2", "expire.0.2.4", "get.1.1"], data=DATA4),
+        P("locked", 1, ["setx.0.1.9.-", "setnx.0.1.8.4", "setnx.0.3.1.4", "setx.0.0.1.-", "incr.0.3.8"], data=DATA3, form="decor"),
+        P("fast", 2, ["setnx.1.0.2.8", "setx.0.2.3.-", "del.0.1", "setx.0.1.4.-", "setnx.0.1.5.4", "expire.0.1.8"], data=DATA4, exc="runtime"),
+        P("serializable", 1, ["incr.0.0.8", "incr.0.0.4", "adv.4", "expire.0.2.8", "incr.0.1.8", "expire.0.0.16"], data=DATA3),
+        P("locked", 2, ["expire.0.2.4", "adv.8", "get.0.2", "expire.0.1.4", "setx.1.1.7.8", "adv.2", "incr.1.2.4"], data=DATA4, form="decor"),
+        P("locked", 3, ["expire.2.0.8", "setnx.1.3.1.-", "expire.0.1.16"], data=DATA4 + [(2, 0, 4, None)], bkind="base"),
+    ]
     # the kind of the BaseException-only failures alternates over the family
     for i, p in enumerate(out):
         if i % 3 == 1 and p["bkind"] == "cancel":
@@ -174,6 +198,19 @@ def gen_program(rng):
         if hot and rng.random() < 0.35:
             b, k = rng.choice(hot)
         r = rng.random()
+        stored = [(d[0], d[1]) for d in data]
+        if rng.random() < 0.3:
+            # the read-modify-write commands; `expire` prefers a key the store has
+            if stored and rng.random() < 0.6:
+                b, k = rng.choice(stored)
+            r2 = rng.random()
+            if r2 < 0.45 and not ttl_free:
+                body.append(f"expire.{b}.{k}.{rng.choice([0, 2, 4, 8, 16, 32])}")
+            elif r2 < 0.6:
+                body.append(f"incr.{b}.{k}.{'-' if ttl_free else rng.choice([4, 8, 16])}")
+            else:
+                body.append(f"{rng.choice(['setx', 'setnx'])}.{b}.{k}.{rng.randrange(0, 6)}.{'-' if ttl_free else rng.choice(['-', '-', 4, 8])}")
+            continue
         if r < 0.22:
             body.append(f"set.{b}.{k}.{rng.randrange(0, 6)}.{'-' if ttl_free else rng.choice(['-', '-', 4, 8, 16])}")
         elif r < 0.36:
@@ -341,6 +378,33 @@ def classify(prog, obs):
             st.add("fault_while_multi_key_command_takes_its_locks")
             if any(lo <= j < hi for j in blocked):
                 st.add("fault_in_multi_key_command_that_had_to_wait_for_a_lock")
+    # TTLs and the read-modify-write commands (expire / incr with a ttl / conditional set)
+    if any(d[3] is not None for d in prog["data"]):
+        st.add("initial_store_has_ttls")
+    stored = {(d[0], d[1]) for d in prog["data"]}
+    for n, c in enumerate(prog["body"][:len(starts)]):
+        w = c.split(".")
+        if w[0] not in ("expire", "setx", "setnx") and not (w[0] == "incr" and len(w) > 3):
+            continue
+        lo, hi = starts[n], (starts[n + 1] if n + 1 < len(starts) else body_end)
+        reads = [i for i in range(lo, min(hi, len(tr))) if tr[i].split(".")[1] in ("get", "exists")]
+        st.add({"expire": "expire_in_body", "incr": "incr_with_ttl_in_body"}.get(w[0], "conditional_set_in_body"))
+        if w[0] == "expire":
+            st.add("expire_read_the_store" if reads else "expire_of_a_key_buffered_or_deleted_in_the_transaction")
+            if reads and (int(w[1]), int(w[2])) not in stored:
+                st.add("expire_of_a_missing_key")
+        for i in reads:
+            if i in failed:
+                st.add("fault_in_the_read_of_a_read_modify_write")
+                if any(tr[j].split(".")[1] == "setlock" and j not in failed for j in range(lo, i)):
+                    st.add("fault_in_the_read_right_after_its_lock_was_taken")              # class of seeded C16-7
+        if w[0] == "expire" and reads and not any(i in failed for i in reads) and (int(w[1]), int(w[2])) in stored \
+                and any(hi <= i < body_end for i in failed):
+            st.add("body_fault_after_expire_of_a_stored_key_not_written_before")            # class of seeded C16-8
+    if obs["body_raised"] and any("@-" not in e for e in obs["store"]):
+        st.add("failed_body_left_entries_with_deadlines_compared")
+    if not obs["body_raised"] and obs["exc"] == "none" and any(c.split(".")[0] == "expire" for c in prog["body"]):
+        st.add("expire_committed")
     if blocked:
         st.add("lock_attempt_blocked")
     rel = obs.get("released_at") or []
@@ -381,7 +445,7 @@ def diff(obs, model):
 
 def summary(obs):
     return {k: obs[k] for k in KEYS + ["body_end", "body_raised", "failed", "released_at", "tasks_pending_after_block",
-                                       "late_commands"]}
+                                       "late_commands", "writes_sent"]}
 
 
 def canon(prog, faults, rels=()):
@@ -403,7 +467,7 @@ def find_violation(prog, depth=2, clause=None):
 
 
 def used_backends(body):
-    return {int(c.split(".")[1]) for c in body if c.split(".")[0] in ("set", "incr", "get", "del", "setmany", "delmany")}
+    return {int(c.split(".")[1]) for c in body if c.split(".")[0] in ("set", "incr", "get", "del", "setmany", "delmany", "expire", "setx", "setnx")}
 
 
 def shrink(prog, faults, rels, clause):
@@ -467,6 +531,14 @@ def shrink(prog, faults, rels, clause):
         p3 = dict(best[0], **{field: []})
         if violates(p3, best[1], best[2], clause):
             best = (p3, best[1], best[2])
+    if len(best[0]["data"]) > 1:
+        # the initial store, entry by entry (a changed ttl needs the key to be there)
+        p0, f0, r0 = best
+        kept = ddmin(p0["data"], lambda d: not any(h["end"] == "commit" and any(x[0] == h["b"] and x[1] == h["k"] for x in d)
+                                                   for h in p0.get("holders") or [])
+                     and violates(dict(p0, data=list(d)), f0, r0, clause))
+        if len(kept) < len(p0["data"]) and violates(dict(p0, data=list(kept)), f0, r0, clause):
+            best = (dict(p0, data=list(kept)), f0, r0)
     for nb in (1, 2):
         if best[0]["nb"] > nb and used_backends(best[0]["body"]) <= set(range(nb)) and all(d[0] < nb for d in best[0]["data"]) \
                 and all(f[0] < nb for f in best[0]["flocks"]) and all(h["b"] < nb for h in best[0].get("holders") or []):
@@ -632,6 +704,12 @@ def run(chk: Check) -> int:
             hist_prog["with_holders"] = hist_prog.get("with_holders", 0) + 1
         if any(c.split(".")[0] in ("setmany", "delmany") for c in prog["body"]):
             hist_prog["with_multi_key_commands"] = hist_prog.get("with_multi_key_commands", 0) + 1
+        if any(c.split(".")[0] == "expire" for c in prog["body"]):
+            hist_prog["with_expire"] = hist_prog.get("with_expire", 0) + 1
+        if any(c.split(".")[0] in ("setx", "setnx") or (c.split(".")[0] == "incr" and len(c.split(".")) > 3) for c in prog["body"]):
+            hist_prog["with_conditional_set_or_incr_ttl"] = hist_prog.get("with_conditional_set_or_incr_ttl", 0) + 1
+        if any(d[3] is not None for d in prog["data"]):
+            hist_prog["with_ttls_in_the_initial_store"] = hist_prog.get("with_ttls_in_the_initial_store", 0) + 1
         submit(prog, enumerate_cases(prog, depth), origin)
 
     for i, prog in enumerate(fixed_family()):
@@ -668,11 +746,17 @@ def run(chk: Check) -> int:
                 "repeated for EVERY placement of each holder's release: just before the victim's command i, for every i of the trace, "
                 "and after the victim's block. "
                 "Programs: a fixed family (3 modes x 1/2/3 backends x context-manager/decorator x both exception classes x both "
-                "BaseException classes, normal / raising / cancelled bodies, single- and multi-key writes (set_many / delete_many over 2-3 keys), TTL groups and time advance, contention "
+                "BaseException classes, normal / raising / cancelled bodies, single- and multi-key writes (set_many / delete_many over 2-3 keys), TTL groups and time advance, "
+                "initial stores whose keys carry deadlines, expire (of a stored key the transaction has not written, of a key written / deleted "
+                "earlier in the transaction, of a missing key, with timeout 0), incr with a ttl, set with a ttl, set(exist=True|False), contention "
                 "with a lock held for ever, contention with 1-2 holders that commit or roll back) plus programs generated from VERIF_SEED "
                 "until the budget is used. "
                 "Exhaustive per program, not over programs. A case is non-trivial iff at least one command actually failed or the body "
-                "hit LockedError or a lock attempt was blocked; distinct = distinct (program, fault set, release placement).",
+                "hit LockedError or a lock attempt was blocked; distinct = distinct (program, fault set, release placement). "
+                "Store comparison (implementation vs model, and the oracle 'a failed body leaves the store as it was'): the WHOLE live entry "
+                "of every key of every backend - value AND deadline; the deadline is measured through the API on the virtual clock "
+                "(get_expire, then the clock is moved to the first tick at which the key is reported gone). After a failed body no write "
+                "command that ran may appear in the backends' command trace.",
         "samples": samples,
         "programs": hist_prog["programs"],
         "program_counts": hist_prog,
@@ -690,8 +774,9 @@ def run(chk: Check) -> int:
                    "what the failing command raises); "
                    "arbitrary interleavings of several tasks (C05; here other tasks only hold and release locks at command "
                    "granularity); a holder that TAKES a lock while the victim's block runs; nested blocks and explicit "
-                   "tx.commit()/rollback() inside the body; commands other than set/incr/get/delete/set_many/delete_many (single "
-                   "backend per multi-key command); the 0.1 s sleeps of the lock wait loop are symbolic (count of attempts), so the "
+                   "tx.commit()/rollback() inside the body; commands other than set (with ttl / exist=) / incr (with ttl) / get / delete / "
+                   "expire / set_many / delete_many (single backend per multi-key command; no get_expire / exists / delete_match / get_many "
+                   "as body commands); programs with contention carry no TTLs and no expire (their clock is symbolic); the 0.1 s sleeps of the lock wait loop are symbolic (count of attempts), so the "
                    "clock of contended runs is not compared; Redis/diskcache backends",
     })
     chk.assumptions.extend(TRUSTED)
